@@ -93,7 +93,11 @@ type Entry struct {
 }
 
 func (e Entry) Version() Version {
-	return Version{TS: e.Hdr.TS, Deleted: e.Hdr.Flags&1 != 0, Val: string(e.App)}
+	v := Version{TS: e.Hdr.TS, Deleted: e.Hdr.Flags&1 != 0, Val: string(e.App)}
+	if v.Deleted {
+		v.Val = ""
+	}
+	return v
 }
 
 type KVPair struct{ K, V []byte }
@@ -259,7 +263,11 @@ func (st *NodeState) LogicalContent(native bool) (Logical, []string) {
 				errs = append(errs, fmt.Sprintf("dbi %s key %x: %v", d.Name, p.K, err))
 				continue
 			}
-			m[string(p.K)] = Version{TS: h.TS, Deleted: h.Flags&1 != 0, Val: string(val)}
+			v := Version{TS: h.TS, Deleted: h.Flags&1 != 0, Val: string(val)}
+			if v.Deleted {
+				v.Val = "" // a deleted entry has no application value, whatever bytes follow the header
+			}
+			m[string(p.K)] = v
 		}
 		out[app] = m
 	}
